@@ -26,7 +26,8 @@ INPUTS.append(("scalars_mixins",
                "scalar Date\nscalar Blob\nscalar Stamp\nscalar Money\ntype Query { when(d: Date, b: Blob): Ev range(stamps: [Stamp!], grid: [[Money]]): Int }\ntype Ev { at: Date! until: [Date] raw: Blob loc: Loc near(d: Date, s: Stamp, m: [Money!]): Ev }\ntype Loc { lat: Float! lon: Float! }\ninput Win { from: Date!, to: Date }\ntype Mutation { book(w: Win!): Ev }",
                "query When($d: Date, $b: Blob) { when(d: $d, b: $b) { at until raw loc @mixin(from: \".mixins\", import: \"MixA\") @mixin(from: \".mixins\", import: \"MixB\") { lat lon } ...EvF } }\n"
                "mutation Book($w: Win!) { book(w: $w) { at } }\nfragment EvF on Ev @mixin(from: \".mixins\", import: \"MixA\") { at }\n"
-               "query Range($stamps: [Stamp!], $grid: [[Money]]) { range(stamps: $stamps, grid: $grid) }",
+               "query Range($stamps: [Stamp!], $grid: [[Money]]) { range(stamps: $stamps, grid: $grid) }\n"
+               "query LastWithoutScalarVariables { when { raw } }",
                {"scalars": {"Date": {"type": "str", "parse": ".scal.parse_d", "serialize": ".scal.ser_d"}, "Stamp": {"type": "datetime.datetime"}, "Money": {"type": "decimal.Decimal", "serialize": ".scal.ser_d"}},
                 "files_to_include": ["mixins.py", "scal.py"]},
                {"mixins.py": MIXINS, "scal.py": SCAL}, False))
